@@ -12,7 +12,7 @@ EXPLANATION = (
     "independent oracle formula: None iff no registered URI prefix is a prefix of u, otherwise canonical prefix of "
     "the owner of the longest matching URI prefix ++ delimiter ++ u[len(prefix):]. Because record contents are "
     "symbolic, one shape covers every overlap lattice and every permutation of a concrete record list; incremental "
-    "jobs additionally build the same converter through add_record from every split point.")
+    "jobs additionally build the same converter through add_record from every split point, 'interleaved' jobs also query the converter between the additions.")
 BOUNDS = dict(records="<= 4 (quick <= 3)", uri_prefix_synonyms_per_record="<= 2", strings="unbounded length, full z3 alphabet",
               delimiter="':' and an arbitrary non-empty symbolic string")
 OUTSIDE = ["more than 4 records or more than 2 URI-prefix synonyms per record", "non-strict converters",
@@ -31,7 +31,8 @@ def jobs(tier):
                         shard_depth=shard, group=fn, expect_outcomes=["none", "some"]))
     quick = [("construct", [[0, 0]], True), ("construct", [[0, 1], [0, 1]], False), ("construct", [[1, 1], [1, 1]], True),
              ("construct", [[0, 0], [0, 0], [0, 0]], False),
-             ("incremental", [[0, 1], [0, 0]], False), ("incremental", [[0, 0], [0, 0]], True)]
+             ("incremental", [[0, 1], [0, 0]], False), ("incremental", [[0, 0], [0, 0]], True),
+             ("interleaved", [[0, 0], [0, 0]], False), ("interleaved", [[0, 1], [0, 0]], True)]
     for fn, sh, sd in quick:
         J(fn, sh, sd)
     if tier == "thorough":
@@ -41,19 +42,8 @@ def jobs(tier):
         J("construct", [[0, 0]] * 4, False, 2400, shard=10)
         J("incremental", [[0, 1], [0, 1], [0, 0]], False, 2400, shard=8)
         J("incremental", [[1, 1], [0, 1]], True, 1500, shard=6)
+        J("interleaved", [[0, 1], [0, 1], [0, 0]], False, 2400, shard=8)
     return out
-
-
-def build_converter(eng, fn, recs, delim):
-    api = eng.mods.api
-    if fn == "construct":
-        return build(eng, recs, delim)
-    # incremental: first k records through the constructor, the rest through add_record, k symbolic
-    k = eng.choice("split", list(range(len(recs))))
-    c = api.Converter([api.Record(**r.kwargs()) for r in recs[:k]], delimiter=delim)
-    for r in recs[k:]:
-        c.add_record(api.Record(**r.kwargs()))
-    return c
 
 
 def build(job):  # noqa: F811 - harness entry point (shadows common.build deliberately below)
@@ -65,14 +55,17 @@ def build(job):  # noqa: F811 - harness entry point (shadows common.build delibe
         recs = mk_recs(eng, params["shape"])
         assume_strict(eng, recs)
         delim = get_delim(eng, params["symdelim"], recs, no_delim_in_prefixes=False)
+        u = eng.var("uri")
         if fn == "construct":
             c = _build(eng, recs, delim)
         else:
             k = eng.choice("split", list(range(len(recs))))
             c = api.Converter([api.Record(**r.kwargs()) for r in recs[:k]], delimiter=delim)
             for r in recs[k:]:
+                if fn == "interleaved":
+                    c.compress(u)       # a query between the additions must not influence later answers
+                    c.is_uri(u)
                 c.add_record(api.Record(**r.kwargs()))
-        u = eng.var("uri")
         q, d = _s(u), _s(delim)
         ref = c.parse_uri(u, return_none=True)
         got = c.compress(u)
